@@ -102,6 +102,46 @@ func verifC14TSDReuse() {
 	verifReach("end")
 }
 
+// pooled reuse after an abandoned use: slots and values were appended to an encoder but Bytes() was
+// never called (an early return or a panic with the release deferred, as in the memory database's
+// compaction); the encoder goes back to the pool - or is reset in place - with unflushed bits. The
+// next block written with it is byte-identical to the one a fresh encoder writes, and decodes.
+func verifC14TSDReuseAbandoned() {
+	b1 := verifMakeBlock("b1", 2)
+	b2 := verifMakeBlock("b2", 2)
+	enc := GetTSDEncoder(b1.start)
+	for i := range b1.present {
+		if b1.present[i] {
+			enc.AppendTime(bit.One)
+			enc.AppendValue(b1.vals[i])
+		} else {
+			enc.AppendTime(bit.Zero)
+		}
+	}
+	if verifChoose("howReused", 2) == 0 {
+		ReleaseTSDEncoder(enc)
+		enc = GetTSDEncoder(b2.start) // comes from the pool: the same object, reset
+	} else {
+		enc.RestWithStartTime(b2.start)
+	}
+	d2 := append([]byte{}, verifEncodeBlock(enc, b2)...)
+	fresh := verifEncodeBlock(NewTSDEncoder(b2.start), b2)
+	verifAssert(len(d2) == len(fresh), "a reused encoder writes what a fresh one writes (length)")
+	if len(d2) == len(fresh) {
+		same := true
+		for i := range d2 {
+			if d2[i] != fresh[i] {
+				same = false
+			}
+		}
+		verifAssert(same, "a reused encoder writes what a fresh one writes (bytes)")
+	}
+	dec := GetTSDDecoder()
+	dec.Reset(d2)
+	verifCheckSequential(dec, b2)
+	verifReach("end")
+}
+
 func verifC14TSDReach() {
 	b := verifMakeBlock("b1", 2)
 	enc := NewTSDEncoder(b.start)
